@@ -41,7 +41,7 @@ CHECKS = {
     "C11": ("fault_enumeration", "runtime monitoring with fault enumeration: life-cycle histories under ASan+LSan/TSan with hook/late-callback/descriptor/thread balance monitors; every k-th calloc/epoll_create1/pipe2/epoll_ctl/pthread_create of pool creation failed via link-time interposers",
             "Every resource acquisition of tp_create+tp_threads_create (counted by a dry run) is failed one at a time for every k and every kind for pools of 1, 2, 4 (16 in thorough) and the outcome checked (error returned, nothing left behind, hooks balanced); on top, seeded histories over create/threads_create/attach_first/shutdown (main, external, pool thread, concurrent)/wait/destroy incl. illegal orders with in-flight senders, timers and read events, perturbed at the guarded points.",
             TP_NOTE + "; descriptor/thread balance read from /proc/self", "DESIGN.md 4 C11"),
-    "C06": ("exploration", "runtime monitoring: link-time interposers observe what reaches timerfd_create/timerfd_settime/epoll_ctl; online shadow-state monitor on the owning pool thread judges every callback of random add/enable/disable/delete/ready/close histories; ASan+UBSan and TSan builds",
+    "C06": ("exploration", "runtime monitoring: link-time interposers observe what reaches timerfd_create/timerfd_settime/epoll_ctl; online shadow-state monitor on the owning pool thread judges every callback of random and directed add/enable/disable/delete/ready/close/reopen-same-descriptor-number histories; ASan+UBSan and TSan builds",
             "Held on the cases explored: every (value, unit, relative/absolute, periodic/one-shot/dispatch) timer request incl. unit boundaries must program exactly the equivalent itimerspec/clock; every malformed registration (flag/filter/ident/NULL combinations) must be refused without reaching the kernel and well-formed ones installed; hundreds of seeded histories over pipes, socketpairs (incl. half-close and reset), timers (incl. registrations the kernel refuses) and child processes, registered on a worker or on the pool virtual thread, where a callback contradicting the shadow state (disabled, deleted, one-shot already fired, dispatch not re-enabled, wrong EOF flag) is a violation when it happens and expected firings are bounded-progress checked.",
             TP_NOTE + "; cross-thread enable/disable is not gated; absolute periodic interval not asserted", "DESIGN.md 4 C06"),
     "C16": ("exploration", "runtime monitoring: real I/O tasks over socketpairs/loopback with a feeder/drainer peer; callback-boundary monitor (window cursors, canaries in an exact-size heap buffer, stop/pause shadow flags) plus offline byte-stream comparison; ASan+UBSan and TSan builds",
@@ -66,7 +66,7 @@ CHECKS = {
     "C18": ("exploration", "runtime monitoring: socket-address formatting/parsing and prefix arithmetic under ASan+UBSan in exact-size buffers, compared with socket.inet_ntop/ipaddress and integer arithmetic",
             "Held on the cases explored: IPv4 boundaries + 10^5 random, IPv6 of every zero-run shape, v4-mapped and random, boundary ports (all 65536 in thorough), every prefix length 0..32/0..128, every output size 0..needed+1, UNIX paths, and grammar-generated plus mutated text for the parsers; text must be the conventional form and round-trip, reported length = strlen, mask/length conversions inverse, membership/truncation equal integer arithmetic, clearly malformed ports/prefix lengths rejected.",
             "trusted: Python socket/ipaddress; spellings the documentation leaves open (unbalanced brackets, bracketed IPv4, empty port, leading zeros, scope ids) are counted but not judged", "DESIGN.md 4 C18"),
-    "C19": ("exploration", "runtime monitoring: writer/reader histories on the real packet ring (mmap storage) with every block stamped (sequence, offset); explicit range monitor on every iovec; byte-stream reference model decides; ASan+UBSan, valgrind memcheck in thorough",
+    "C19": ("exploration", "runtime monitoring: writer/reader histories on the real packet ring (mmap storage) with every block stamped (sequence, offset); explicit range monitor on every iovec; PROT_NONE guard pages around the library's own mappings (interposed mmap/munmap); byte-stream reference model decides; ASan+UBSan, valgrind memcheck in thorough",
             "Held on the histories explored: ring sizes 4 blocks..1 MiB, min block 1..1500, 1-8 readers advancing by arbitrary amounts, equal and varying block sizes, leading offsets, forced wraps, readers kept one/two rounds behind, round counter preset near SIZE_MAX; no silent gap, no repetition, bytes identical, drop reports account for skipped data, resynchronisation within two ring rounds (bounded progress), avail-size equals a full read, reported size equals bytes in the iovecs, every region inside the ring.",
             "trusted: oracles/ringmodel.py (self-tested in setup); the iovec table lives inside the mapping so only explicit range checks see overruns there", "DESIGN.md 4 C19"),
     "C20": ("exploration", "runtime monitoring: grammar-generated requests/status lines/header blocks (generator keeps its own AST) run through the real parser under ASan+UBSan; returned spans, header lookups, counts and http_req_sec_chk verdicts compared with the AST and an independent pattern scanner",
